@@ -5,6 +5,7 @@
     SCRAM client is modelled in Auth/ScramClient.v (run against the real client,
     three hash variants, against a scripted, tampering server every run). *)
 From FV Require Import Auth.SaslListener Proofs.SaslProofs Auth.ScramClient Proofs.ScramClientProofs.
+From FV Require Import Base.Bytes Codec.Value Codec.Dec Codec.Composite Frame.SaslFrame Auth.Plain Auth.SaslWire Proofs.SaslFrameProofs.
 
 (** Whatever the client does: if the listener ever writes outcome OK, the AMQP
     header or its open, or accept() returns a connection, then the client's
@@ -66,3 +67,50 @@ Print Assumptions C19_client_ok_without_proof_refused.
 Example C19_client_proving_accepted :
   crun CWaitHdr (proving_exchange ++ [VAmqp]) = (CDone, [[]; [OInit]; [OResp]; [OAmqpHdr]; [OOpen; ROk]]).
 Proof. exact proving_accepted. Qed.
+
+(** ** From the bytes on the wire (Frame/SaslFrame.v, Auth/Plain.v, Auth/SaslWire.v) *)
+
+(** The SASL frame codec reads back what it writes: any of the five SASL frames, any field values. *)
+Theorem C19_sasl_frame_roundtrip :
+  forall f b fuel, sframe_ok f -> Forall (fun v => (depth v <= fuel)%nat) (sf_fields f) -> (1 <= fuel)%nat ->
+    enc_sasl_frame f = Some b -> dec_sasl_frame fuel b = Ok f.
+Proof. exact sasl_frame_roundtrip. Qed.
+Print Assumptions C19_sasl_frame_roundtrip.
+
+(** Malformed SASL frames are errors: another frame type, an extended header, a frame without a body. *)
+Theorem C19_malformed_sasl_frame_is_an_error :
+  (forall fuel doff ftype c1 c0 body, (ftype <> 1%N \/ doff <> 2%N) -> exists e, dec_sasl_frame fuel (doff :: ftype :: c1 :: c0 :: body) = Err e) /\
+  (forall fuel bs, (length bs <= 4)%nat -> exists e, dec_sasl_frame fuel bs = Err e).
+Proof. exact (conj sasl_header_rules sasl_short_frame_refused). Qed.
+Print Assumptions C19_malformed_sasl_frame_is_an_error.
+
+(** The PLAIN check passes on exactly the responses  authzid NUL user NUL password:
+    a wrong password, an unknown user, a missing or an extra separator are all refused. *)
+Theorem C19_plain_credentials_exact :
+  forall user pass resp, plain_ok user pass resp = true <->
+    exists authzid, resp = authzid ++ 0%N :: user ++ 0%N :: pass /\ ~ In 0%N authzid /\ ~ In 0%N user.
+Proof. exact plain_ok_iff. Qed.
+Print Assumptions C19_plain_credentials_exact.
+
+(** Whatever bytes a client sends as its first frame to a PLAIN listener: either they are a well-typed
+    sasl-init whose initial response carries the configured user and password - then outcome ok and the
+    AMQP header follow - or the negotiation fails at once: accept() returns an error and nothing that
+    marks an authenticated connection is written.  Composed with C19_no_connection_without_authentication
+    (the [CInitOk] of the action alphabet is exactly this case). *)
+Theorem C19_plain_listener_any_frame_bytes :
+  forall fuel user pass bs,
+  let r := plain_on_frame_bytes fuel user pass bs in
+  (exists m authzid h, dec_sasl_frame fuel bs =
+       Ok {| sf_schema := nth 1 sasl_schemas mechanisms_schema;
+             sf_fields := [VSymbol m; VBinary (authzid ++ 0%N :: user ++ 0%N :: pass); h] |}
+     /\ ~ In 0%N authzid /\ r = (LAmqpHdr, [LOutOk; LH]))
+  \/ (fst r = LFailed /\ In LAcceptErr (snd r) /\ existsb granted (snd r) = false).
+Proof. exact plain_frame_bytes. Qed.
+Print Assumptions C19_plain_listener_any_frame_bytes.
+
+Example C19_plain_listener_example :
+  plain_on_frame_bytes 4 [117%N] [112%N]
+    [2; 1; 0; 0; 0; 83; 65; 192; 14; 2; 163; 5; 80; 76; 65; 73; 78; 160; 4; 0; 117; 0; 112]%N = (LAmqpHdr, [LOutOk; LH])
+  /\ plain_on_frame_bytes 4 [117%N] [112%N]
+    [2; 1; 0; 0; 0; 83; 65; 192; 14; 2; 163; 5; 80; 76; 65; 73; 78; 160; 4; 0; 117; 0; 113]%N = (LFailed, [LOutFail; LAcceptErr; LEof]).
+Proof. exact plain_init_example. Qed.
